@@ -1,5 +1,7 @@
 package vuego
 
+import "sync/atomic"
+
 // C09 — one engine serves concurrent renders without races (lock discipline).
 //
 // zzShared marks the objects that exist before the concurrent section,
@@ -8,7 +10,7 @@ package vuego
 // shared location holds a common lock; natively f runs in 8 goroutines under
 // the race detector.
 
-//verif:harness VerifC09_Locks race quick.maxpaths=20000 thorough.maxpaths=100000 timeout=2400 steps=40000000
+//verif:harness VerifC09_Locks race replayruns=40 quick.maxpaths=20000 thorough.maxpaths=100000 timeout=2400 steps=40000000
 
 func zzC09FS() *zzFS {
 	fsys := newZZFS(map[string]string{
@@ -28,15 +30,15 @@ func zzC09FS() *zzFS {
 func VerifC09_Locks() {
 	entry := zzChoice("entry", 6)
 	warm := zzBool("warm")
-	touch := zzBool("touch") // the files' modification times change while renders are running
+	// the files' modification times change while renders are running:
+	// 0 never, 1 before every render, 2 before every other render (the
+	// renders in between find the refreshed entry in the cache)
+	touch := zzChoice("touch", 3)
 	fsys := zzC09FS()
 	vue := NewVue(fsys)
 	tpl := NewFS(fsys)
 	data := map[string]any{"items": []string{"x", "y"}, "n": 1, "a": map[string]any{"b": []any{"deep"}}}
-	run := func() {
-		if touch {
-			fsys.gen.Add(1)
-		}
+	render := func(vue *Vue, tpl Template) (string, error) {
 		w := &zzWriter{limit: 1 << 20}
 		var err error
 		switch entry {
@@ -53,12 +55,29 @@ func VerifC09_Locks() {
 		case 5:
 			err = vue.Render(w, "page.vuego", data)
 		}
-		zzAssert(err == nil, "C09.locks.render-error")
-		zzAssert(len(w.got) > 0, "C09.locks.no-output")
+		return string(w.got), err
+	}
+	// the same call run alone on an engine of its own
+	alone := zzC09FS()
+	want, werr := render(NewVue(alone), NewFS(alone))
+	zzAssert(werr == nil && len(want) > 0, "C09.alone.renders")
+	zzNote("want", want)
+
+	concurrent := false
+	var calls atomic.Int64
+	run := func() {
+		if n := calls.Add(1); concurrent && (touch == 1 || (touch == 2 && n%2 == 1)) {
+			fsys.gen.Add(1)
+		}
+		got, err := render(vue, tpl)
+		zzAssert(err == nil, "C09.crosstalk.render-error")
+		zzAssert(got == want, "C09.crosstalk.bytes-differ-from-the-call-run-alone")
 	}
 	if warm {
 		run() // caches filled before the concurrent section
 	}
+	concurrent = true
+	calls.Store(0)
 	zzShared("vue", vue)
 	zzShared("tpl", tpl)
 	zzShared("data", data)
